@@ -12,7 +12,9 @@ RULE = ("pools of shapes and closed curves: for each base shape its representati
         "return a bool; oracle = exact region equality (slab samples + orientation); non-trivial = both operands are "
         "neither Empty nor Whole; distinct = SHA-1")
 PROOF_STATUS = ("Props/C07.v: kinds, totality (returns a bool) on well-formed polygons of all kinds, never loops, reflexive "
-                "on cleaned polygons; F8 exhibited by the model (C07_refuted_connected)")
+                "on cleaned polygons, start-vertex independence; SOUND: a == b implies equal winding numbers, area, boundary and "
+                "region when the 1e-9 tolerance cannot confuse control points; symmetric for long pairwise different edges, "
+                "refuted on a repeated edge; completeness / transitivity / composite shapes: oracle (partial); F7, F8, F20 repaired")
 
 
 def _variants(rng, s):
